@@ -5,7 +5,8 @@ From Verif Require Import Mvcc.Model Mvcc.Spec Mvcc.ProofsStore Mvcc.ProofsKey M
 Inductive wshape (c : cmd) (ws : list write) : list write -> Prop :=
 | ws_same : wshape c ws ws
 | ws_put w : wshape c ws (put_write w ws)
-| ws_gc s e sp : c = GC s e sp -> wshape c ws (gc_writes sp true ws).
+| ws_gc s e sp : c = GC s e sp -> wshape c ws (gc_writes sp true ws)
+| ws_clear s e : c = DeleteRange s e -> wshape c ws [].
 
 Ltac kcrush :=
   repeat (match goal with
@@ -66,14 +67,16 @@ Proof.
   - destruct H as [_ H]. destruct (batch_resolve_key_shape _ _ _ _ H) as [w E]. rewrite E. constructor.
   - destruct H.
   - destruct H as [_ H]. unfold gc_key in H. inversion H; subst. cbn [ks_writes]. eapply ws_gc; reflexivity.
-  - destruct H. - destruct H. - destruct H. - destruct H.
+  - destruct H. - destruct H. - destruct H. - destruct H. - destruct H.
+  - destruct H as [_ H]. subst x. cbn [ks_writes empty_ks]. eapply ws_clear; reflexivity.
+  - destruct H.
 Qed.
 
 (* ------------------------------------------------------------------ unconditional sortedness *)
 Definition sorted_store (st : store) : Prop := keys_sorted st /\ forall k, desc (ks_writes (get_ks st k)).
 
 Lemma wshape_desc c ws ws' : wshape c ws ws' -> desc ws -> desc ws'.
-Proof. intros Hw Hd. destruct Hw; [exact Hd|apply put_write_desc; exact Hd|apply gc_writes_desc; exact Hd]. Qed.
+Proof. intros Hw Hd. destruct Hw; [exact Hd|apply put_write_desc; exact Hd|apply gc_writes_desc; exact Hd|constructor]. Qed.
 
 Lemma step_sorted st c : sorted_store st -> sorted_store (fst (step st c)).
 Proof.
